@@ -50,7 +50,7 @@ class Executor(object):
         run_details = ExpRunDetails.compile(executor, run_details)
         variables = ExpVariables.compile(executor, variables)
 
-        if action == "profile" and len(profiler) == 0:
+        if action == "profile" and not profiler:
             raise ConfigurationError("Executor " + executor_name + " is configured for profiling, "
                                      + "but no profiler details are given.")
 
